@@ -178,8 +178,12 @@ func (kv *KeyValue) CommitBatch(b sorted.BatchMutation) error {
 		return fmt.Errorf("wrong BatchMutation type %T", b)
 	}
 	if bt.err != nil {
-		if err := bt.tx.Rollback(); err != nil {
-			log.Printf("Transaction rollback error: %v", err)
+		// bt.tx is nil when the transaction could not be started
+		// (the error is then the one of BEGIN).
+		if bt.tx != nil {
+			if err := bt.tx.Rollback(); err != nil {
+				log.Printf("Transaction rollback error: %v", err)
+			}
 		}
 		return bt.err
 	}
